@@ -176,7 +176,7 @@ func TestC16(t *testing.T) {
 	for _, op := range []string{"Inner", "MatVecMul", "MatMul", "Outer", "Trace"} {
 		op := op
 		cell(t, "C16", "C09.linalg", "linalg/"+op, nCases(80, 2000), func(rt *rapid.T) Case {
-			d := rapid.SampledFrom(floatDTs).Draw(rt, "dt")
+			d := rapid.SampledFrom(floatCplxDTs).Draw(rt, "dt")
 			mode := rapid.SampledFrom([]string{"safe", "reuse", "incr"}).Draw(rt, "mode")
 			if op == "Inner" || op == "Trace" || op == "TensorMul" {
 				mode = "safe"
@@ -266,13 +266,17 @@ func TestC16(t *testing.T) {
 			switch op {
 			case "ToMat64":
 				minR, maxR = 2, 2
-				d = rapid.SampledFrom([]DT{dtF64, dtF32, dtInt16}).Draw(rt, "mdt")
+				d = rapid.SampledFrom([]DT{dtF64, dtF32, dtInt16, dtUint32, dtInt32, dtUint8}).Draw(rt, "mdt")
 			case "Native":
 				maxR = 3
 			}
 			shape := genShapeMin2(rt, minR, maxR, 3, "s")
 			c := &C04Copy{DT: d.Name, Op: op}
-			c.A = genOpnd(rt, shape, rapid.SampledFrom(cmKinds).Draw(rt, "lk"), 0, 40, 0, "a")
+			sp := 0
+			if op == "ToMat64" && d.Size() <= 4 && !d.IsFloat() {
+				sp = 20 // the extremes of the narrower integer types are exact in float64
+			}
+			c.A = genOpnd(rt, shape, rapid.SampledFrom(cmKinds).Draw(rt, "lk"), 0, 40, sp, "a")
 			if op == "SafeT" || op == "pkgT" {
 				c.Perm = genPerm(rt, len(shape), "perm")
 			}
